@@ -216,6 +216,29 @@ def bandwidthCount : LPEntry → List ℕ → ℚ
   | .irregularSmooth, sizes => (sizes.sum : ℚ) / (sizes.length : ℚ)
   | .covariance, sizes => (sizes.prod : ℚ) * (sizes.prod : ℚ)
 
+/-! ### Constants, tables and defaults of the code path (tied to the source by `Generated/SmoothFormulas.lean`) -/
+
+/-- `rcond` of the `lstsq` call in `_local_regression`: singular values below `rcond · σ_max` are dropped. -/
+def lstsqRcond : ℚ := 1 / 10 ^ 10
+
+/-- Largest condition number of the centred/scaled normal matrix for which the harness compares values with the exact
+model (`COND_OK` of harness/c06.py): far below `1 / rcond`, so no singular value of a compared problem is truncated. -/
+def condCompared : ℚ := 10 ^ 5
+
+/-- `_kernel`: kernel name -> function of the module. -/
+def kernelTable : List (String × String) :=
+  [("gaussian", "_gaussian"), ("epanechnikov", "_epanechnikov"), ("tricube", "_tri_cube"), ("bisquare", "_bi_square")]
+
+/-- Default options of `LocalPolynomial(kernel_name, bandwidth, degree, robust)`. -/
+def initKernel : String := "epanechnikov"
+def initBandwidth : ℚ := 1 / 20
+def initDegree : ℕ := 1
+def initRobust : Bool := false
+
+/-- `PolynomialFeatures(degree)`: with the constant column, all monomials (not only interactions). -/
+def polyIncludeBias : Bool := true
+def polyInteractionOnly : Bool := false
+
 /-! ### The uncentred ("raw") formulation, for the equivalence theorem -/
 
 /-- Raw 1-D design: column `k` is `x_i^k`. -/
